@@ -1052,6 +1052,7 @@ func verifyFuncFiltered(prog *Prog, specs *Specs, fn *ssa.Function, tier string,
 	old := x.st.clone()
 	x.entryState = old
 	env.old = old
+	x.siteAsserts = fs.Asserts
 	if len(fs.Ensures) > 0 {
 		x.retHook = func(v Val) {
 			renv := env.child()
